@@ -7,16 +7,19 @@ Local Open Scope list_scope.
 
 (* [mres p v] is the documented rule set written as a structural recursion on the pattern (Some r: v conforms and r is
    returned).  For every pattern built from == constants, types (isinstance), lists (each item against the first
-   accepting alternative) and tuples (positionally, same length), every target, every scope in match mode and any
-   sufficient fuel: the evaluation leaves the state untouched, returns r when the target conforms and raises
-   MatchError / TypeMatchError when it does not — soundness and completeness at once.
-   PARTIAL with respect to the property text: dict patterns are covered by the key-loop theorems below and by the
-   correspondence, not by [mres]. *)
-Theorem match_decides_conformance_partial : forall fixed p fuel sc v st,
-  pdepth p < fuel -> head_mode sc = MATCH -> head_arg sc = false ->
+   accepting alternative), tuples (positionally, same length) and dicts (every target key, in the target's order, against
+   the FIRST spec key that accepts it — an == constant, a type, Required(type) or Optional(constant) — its value against
+   that entry's value pattern with no fall-through; Optional defaults filled in; every required key must have accepted
+   some target key), at any nesting; every target (whose dict keys are hashable, as every Python dict's are), every scope in
+   match mode and any sufficient fuel: the evaluation leaves the state untouched, returns r when the target conforms and
+   raises MatchError / TypeMatchError when it does not — soundness and completeness at once.
+   Outside this pattern language (and covered by the correspondence only): callables, Regex and the And / Or / Not / M
+   combinators as sub-patterns (their own laws are C10's), set patterns. *)
+Theorem match_decides_conformance : forall fixed p fuel sc v st,
+  pdepth p < fuel -> keys_hashable v = true -> head_mode sc = MATCH -> head_arg sc = false ->
   decides (glom_ fixed fuel sc v (to_spec p)) st (mres p v).
 Proof. exact match_decides_lemma. Qed.
-Print Assumptions match_decides_conformance_partial.
+Print Assumptions match_decides_conformance.
 
 (* dict patterns: per target key the spec keys are tried in spec order and the first accepting one selects the value spec *)
 Theorem dict_key_first_match : forall rec own sc key value pre k vs post i st st1 key' child st2,
@@ -53,4 +56,16 @@ Proof. vm_compute. reflexivity. Qed.
 Example ex_rejects : mres ex_p ex_bad = None.
 Proof. vm_compute. reflexivity. Qed.
 Example ex_run : fst (glom_top true [] ex_good (SMatch (to_spec ex_p) None)) = Ok (VList 0 [VTuple 0 [VInt 3; VStr "a"]; VStr "z"]).
+Proof. vm_compute. reflexivity. Qed.
+(* a dict pattern: 'id' required, any other string key must hold an int, Optional('n') defaults to 0; spec order decides *)
+Definition ex_d : pat := PDict [(KLit (VStr "id"), PType TyStr); (KOpt (VStr "n") (Some (VInt 0)), PType TyInt); (KType TyStr, PType TyInt)].
+Example ex_dict_conforms : mres ex_d (VDict 1 false [(VStr "x", VInt 5); (VStr "id", VStr "k")])
+  = Some (VDict 0 false [(VStr "x", VInt 5); (VStr "id", VStr "k"); (VStr "n", VInt 0)]).
+Proof. vm_compute. reflexivity. Qed.
+Example ex_dict_missing_required : mres ex_d (VDict 1 false [(VStr "x", VInt 5)]) = None.
+Proof. vm_compute. reflexivity. Qed.
+Example ex_dict_no_fallthrough : mres ex_d (VDict 1 false [(VStr "id", VInt 3)]) = None.      (* 'id' is claimed by the literal key: str required *)
+Proof. vm_compute. reflexivity. Qed.
+Example ex_dict_run : fst (glom_top true [] (VDict 1 false [(VStr "x", VInt 5); (VStr "id", VStr "k")]) (SMatch (to_spec ex_d) None))
+  = Ok (VDict 0 false [(VStr "x", VInt 5); (VStr "id", VStr "k"); (VStr "n", VInt 0)]).
 Proof. vm_compute. reflexivity. Qed.
